@@ -74,7 +74,7 @@ def shortest_depths(adj, root=0):
     return d
 
 
-def write_graph(base, n, adj_ordered, ns_of=None, dir_of=None, import_path=None, no_refs_to=()):
+def write_graph(base, n, adj_ordered, ns_of=None, dir_of=None, import_path=None, no_refs_to=(), empty=()):
     """adj_ordered: {u: [v...]} in the order the imports are listed."""
     ns_of = ns_of or (lambda i: "P%d" % i)
     dir_of = dir_of or (lambda i: "p%d" % i)
@@ -91,6 +91,11 @@ def write_graph(base, n, adj_ordered, ns_of=None, dir_of=None, import_path=None,
         if i == 0:
             model += "Root: !protocol\n  sequence:\n    r: R0\n"
         files[dir_of(i) + "/_package.yml"] = man
+        if i in empty:
+            # a package that defines nothing itself (it only groups imports): no model file, or one that holds a comment only
+            if i % 2:
+                files[dir_of(i) + "/model.yml"] = "# nothing defined here\n"
+            continue
         files[dir_of(i) + "/model.yml"] = model
     common.write_tree(base, files)
     return os.path.join(base, dir_of(0))
@@ -250,6 +255,7 @@ def run(ctx):
     res = pmap(one, list(enumerate(graphs)))
     shared_namespaces(ctx, home, graphs, quick)
     foreign_use(ctx, home, graphs, quick)
+    empty_packages(ctx, home, graphs, quick)
     for x in res[5:9] + res[-3:]:
         ctx.sample({"packages": x[0], "imports": {str(k): v for k, v in x[1].items()}, "expected": x[2], "exit": x[3]})
     special(ctx, home)
@@ -307,6 +313,63 @@ def shared_namespaces(ctx, home, graphs, quick):
                 ctx.violation("rejected-valid-graph:unreachable-claimant", "%s: only one of the two is reachable from the root, yet the package is rejected: %s" % (desc, cli.clean(p.stderr)[:300]), case)
             else:
                 shutil.rmtree(base, ignore_errors=True)
+
+    pmap(one, jobs)
+
+
+def empty_packages(ctx, home, graphs, quick):
+    """the same graphs with one package (not the root) that defines nothing itself and only passes its imports on: everything reachable through it is
+    still loaded, exactly once, and its importers can use the types of the packages behind it (they are its indirect imports)"""
+    jobs = []
+    for gi, (n, adj) in enumerate(graphs):
+        if n < 3 or has_reachable_cycle(adj) or any(u in vs for u, vs in adj.items()) or longest_path(adj) >= LIMIT:
+            continue
+        if quick and n == 4 and gi % 5:
+            continue
+        rset = reach(adj)
+        for e in sorted(rset):
+            if e != 0 and adj.get(e):
+                jobs.append((gi, n, adj, e))
+
+    def one(job):
+        gi, n, adj, e = job
+        nodes = sorted(adj)
+        orders = [{x: list(adj[x]) for x in nodes}, {x: list(reversed(adj[x])) for x in nodes}]
+        if orders[0] == orders[1]:
+            orders = orders[:1]
+        want = sorted("P%d" % i for i in reach(adj))
+        behind = sorted(v for v in reach(adj, e) if v != e)
+        for oi, ordered in enumerate(orders):
+            base = os.path.join(ctx.workdir, "cases", "empty%d_%d_%d" % (gi, e, oi))
+            shutil.rmtree(base, ignore_errors=True)
+            pkgdir = write_graph(base, n, ordered, no_refs_to=(e,), empty=(e,))
+            # every importer of the empty package uses a type of a package behind it
+            for u in nodes:
+                if e in adj.get(u, []) and behind:
+                    with open(os.path.join(base, "p%d" % u, "model.yml"), "a") as f:
+                        f.write("Through%d: !record\n  fields:\n    x: P%d.R%d\n" % (u, behind[0], behind[0]))
+            p, parsed, dump = observe(pkgdir, home)
+            ctx.ev()
+            ctx.case(("empty-package", n, tuple(sorted((a, tuple(b)) for a, b in ordered.items())), e))
+            ctx.count("empty-package")
+            desc = "graph n=%d %s order %s with package %d defining nothing" % (n, {a: b for a, b in sorted(adj.items())}, ordered, e)
+            case = {"case_dir": base, "graph": adj, "order": ordered, "empty": e, "stderr": cli.clean(p.stderr)[-1200:]}
+            site = cli.panic_site(p.stderr)
+            if p.timed_out:
+                raise Inconclusive("watchdog")
+            if site:
+                ctx.violation("panic@%s" % site, "%s: crash" % desc, case)
+            elif p.rc != 0:
+                ctx.violation("rejected-valid-graph:empty-package", "%s: valid import graph rejected: %s" % (desc, cli.clean(p.stderr)[:300]), case)
+            elif sorted(parsed) != want:
+                ctx.violation("load-count:empty-package", "%s: namespaces parsed %s, expected each of %s exactly once" % (desc, sorted(parsed), want), case)
+            else:
+                names = set(re.findall(r'"name": "(P\d+)"', dump or ""))
+                missing = [w for w in want if w not in names and w != "P%d" % e]
+                if missing:
+                    ctx.violation("missing-namespace:empty-package", "%s: the model dump lacks the namespaces %s" % (desc, missing), case)
+                else:
+                    shutil.rmtree(base, ignore_errors=True)
 
     pmap(one, jobs)
 
